@@ -34,8 +34,8 @@ impl VerifStream for PipeEnd {
 /// global activity counter (pipe reads/writes, mock callbacks, probes)
 static ACTIVITY: AtomicU64 = AtomicU64::new(0);
 
-pub fn bump() {
-    ACTIVITY.fetch_add(1, Ordering::Relaxed);
+pub fn bump() -> u64 {
+    ACTIVITY.fetch_add(1, Ordering::Relaxed) + 1
 }
 pub fn activity() -> u64 {
     ACTIVITY.load(Ordering::Relaxed)
@@ -52,6 +52,8 @@ pub enum Chunk {
 
 #[derive(Clone, Debug)]
 pub struct TxRecord {
+    /// global order stamp (shared with mock callbacks)
+    pub ord: u64,
     /// virtual milliseconds since the pipe's epoch
     pub t_ms: u64,
     pub bytes: Vec<u8>,
@@ -297,7 +299,7 @@ impl AsyncWrite for PipeEnd {
         data: &[u8],
     ) -> Poll<std::io::Result<usize>> {
         let mut g = self.0.lock().unwrap_or_else(|e| e.into_inner());
-        bump();
+        let ord = bump();
         if let Some(kind) = g.write_fault.take() {
             return Poll::Ready(Err(kind.into()));
         }
@@ -308,6 +310,7 @@ impl AsyncWrite for PipeEnd {
             None => 0,
         };
         g.tx.push(TxRecord {
+            ord,
             t_ms,
             bytes: data.to_vec(),
         });
